@@ -2,19 +2,36 @@
 //! on the tile's MARE chunk) + WdlParser::parse -> field comparison -> second write;
 //! convert_wdl_file over all version pairs.
 use crate::walker::*;
-use crate::wdt::{grid, mix, GRIDS};
+use crate::wdt::{brief, gen_name, grid, mix, name_shape, GRIDS, NAME_SHAPES};
 use serde_json::{json, Value};
 use std::collections::BTreeMap;
 use std::io::Cursor;
+use std::sync::OnceLock;
 use vcore::*;
 use wow_wdl::conversion::convert_wdl_file;
 use wow_wdl::parser::WdlParser;
 use wow_wdl::types::{BoundingBox, HeightMapTile, HolesData, M2Placement, M2VisibilityInfo, ModelPlacement, Vec3d, WdlFile};
 use wow_wdl::version::WdlVersion;
 
-pub const VERSIONS: [WdlVersion; 6] = [WdlVersion::Vanilla, WdlVersion::Wotlk, WdlVersion::Cataclysm, WdlVersion::Mop, WdlVersion::Wod, WdlVersion::Legion];
-pub const VNAMES: [&str; 6] = ["Vanilla", "Wotlk", "Cataclysm", "Mop", "Wod", "Legion"];
+/// the first 6 (Vanilla..Legion) are the versions of the property text and of the quick tier; the thorough tier adds
+/// the later versions the crate declares (same chunk set as Legion) and `Latest` (the auto-detecting default)
+pub const VERSIONS: [WdlVersion; 10] = [
+    WdlVersion::Vanilla,
+    WdlVersion::Wotlk,
+    WdlVersion::Cataclysm,
+    WdlVersion::Mop,
+    WdlVersion::Wod,
+    WdlVersion::Legion,
+    WdlVersion::Bfa,
+    WdlVersion::Shadowlands,
+    WdlVersion::Dragonflight,
+    WdlVersion::Latest,
+];
+pub const VNAMES: [&str; 10] = ["Vanilla", "Wotlk", "Cataclysm", "Mop", "Wod", "Legion", "Bfa", "Shadowlands", "Dragonflight", "Latest"];
 const LEGION: usize = 5;
+/// versions of the quick tier / of the thorough tier
+pub const NV_Q: usize = 6;
+pub const NV: usize = 10;
 
 fn vidx(v: WdlVersion) -> Option<usize> {
     VERSIONS.iter().position(|x| *x == v)
@@ -30,7 +47,7 @@ fn can_wmo(vi: usize) -> bool {
     (1..=4).contains(&vi)
 }
 fn can_ml(vi: usize) -> bool {
-    vi == LEGION
+    vi >= LEGION
 }
 
 #[derive(Clone, Debug, PartialEq)]
@@ -167,9 +184,51 @@ fn vis(k: u32, base: u32) -> Vis {
     Vis { f, radius: if k == 1 { fb(f32::INFINITY) } else { fb(17.32 + k as f32) } }
 }
 
-/// model shapes: pre-Legion (names, placements); Legion (m2 count, wmo count)
+/// model shapes of the quick tier: pre-Legion (names, placements); Legion (m2 count, wmo count)
 pub const MODEL_SHAPES: [(usize, usize); 6] = [(0, 0), (1, 0), (1, 1), (3, 1), (1, 3), (3, 3)];
 pub const ML_SHAPES: [(usize, usize); 6] = [(0, 0), (1, 0), (0, 1), (3, 1), (1, 3), (3, 3)];
+pub const SHAPES_Q: usize = 6;
+
+/// pre-Legion shapes (names, MWID entries, placements).  The first 6 are the quick shapes (MWID count = name count);
+/// the rest completes the product names {1,3} x MWID entries {0, names, names+2} x placements {0,1,3} (+ the empty shape): 19.
+pub fn wmo_shapes() -> &'static [(usize, usize, usize)] {
+    static S: OnceLock<Vec<(usize, usize, usize)>> = OnceLock::new();
+    S.get_or_init(|| {
+        let mut v: Vec<(usize, usize, usize)> = MODEL_SHAPES.iter().map(|&(n, p)| (n, n, p)).collect();
+        for n in [1usize, 3] {
+            for ni in [0, n, n + 2] {
+                for p in [0usize, 1, 3] {
+                    if !v.contains(&(n, ni, p)) {
+                        v.push((n, ni, p));
+                    }
+                }
+            }
+        }
+        assert_eq!(v.len(), 19);
+        v
+    })
+}
+/// Legion+ shapes (MLDD, MLDX, MLMD, MLMX record counts).  The first 6 are the quick shapes (placement count =
+/// visibility count); the rest completes the product {0,1,3}^4: 81.
+pub fn ml_shapes() -> &'static [[usize; 4]] {
+    static S: OnceLock<Vec<[usize; 4]>> = OnceLock::new();
+    S.get_or_init(|| {
+        let mut v: Vec<[usize; 4]> = ML_SHAPES.iter().map(|&(a, b)| [a, a, b, b]).collect();
+        for a in [0usize, 1, 3] {
+            for av in [0usize, 1, 3] {
+                for b in [0usize, 1, 3] {
+                    for bv in [0usize, 1, 3] {
+                        if !v.contains(&[a, av, b, bv]) {
+                            v.push([a, av, b, bv]);
+                        }
+                    }
+                }
+            }
+        }
+        assert_eq!(v.len(), 81);
+        v
+    })
+}
 
 pub fn make_model(vi: usize, tiles: &dyn Fn(u32, u32) -> bool, hmode: usize, holemode: usize, shape: usize) -> WdlModel {
     let mut m = WdlModel {
@@ -198,26 +257,35 @@ pub fn make_model(vi: usize, tiles: &dyn Fn(u32, u32) -> bool, hmode: usize, hol
         }
     }
     if can_wmo(vi) {
-        let (n, p) = MODEL_SHAPES[shape];
+        let (n, ni, p) = wmo_shapes()[shape];
         let pool = ["World\\wmo\\Azeroth\\Buildings\\Human_Farm\\Farm.wmo".to_string(), "b".to_string(), format!("{}\\T\u{00fc}r.wmo", "y".repeat(270))];
         let mut off = 0u32;
+        let mut offs = vec![];
         for s in pool.iter().take(n) {
             m.names.push(s.clone());
-            m.indices.push(off); // MWID: offsets into the MWMO data
+            offs.push(off); // MWID: offsets into the MWMO data
             off += s.len() as u32 + 1;
+        }
+        for k in 0..ni {
+            // entries beyond the name count are raw dwords (the format does not tie the two counts together)
+            m.indices.push(if k < n { offs[k] } else { mix(k as u32, 5, 91) });
         }
         for k in 0..p {
             m.placements.push(plc(k as u32, (k % n.max(1)) as u32));
         }
     }
     if can_ml(vi) {
-        let (a, b) = ML_SHAPES[shape];
+        let [a, av, b, bv] = ml_shapes()[shape];
         for k in 0..a {
             m.m2.push(m2(k as u32, 0));
+        }
+        for k in 0..av {
             m.m2vis.push(vis(k as u32, 0));
         }
         for k in 0..b {
             m.wmo2.push(m2(k as u32, 100));
+        }
+        for k in 0..bv {
             m.wmo2vis.push(vis(k as u32, 100));
         }
     }
@@ -299,12 +367,13 @@ fn write_wdl(v: WdlVersion, f: &WdlFile) -> Result<Vec<u8>, String> {
 
 // ------------------------------------------------------------------ oracle 1: walker
 
-pub fn walk_check(bytes: &[u8], m: &WdlModel, pre: &str, r: &mut CaseResult) {
+/// Returns the payload offset of the MAOF chunk (None when the bytes are not walkable that far).
+pub fn walk_check(bytes: &[u8], m: &WdlModel, pre: &str, r: &mut CaseResult) -> Option<usize> {
     let chunks = match walk(bytes) {
         Ok(c) => c,
         Err(e) => {
             r.viol(format!("{pre}: written bytes are not a well-formed chunk sequence"), e);
-            return;
+            return None;
         }
     };
     let vi = vidx(m.version);
@@ -315,7 +384,7 @@ pub fn walk_check(bytes: &[u8], m: &WdlModel, pre: &str, r: &mut CaseResult) {
     let maof = find(&chunks, "MAOF");
     if maof.len() != 1 || maof[0].size != 16384 {
         r.viol(format!("{pre}: MAOF chunk in written bytes missing, duplicated or not 16384 bytes"), format!("{:?}", maof));
-        return;
+        return None;
     }
     let mo = maof[0].data_off;
     let with_holes = vi.map(can_holes).unwrap_or(true);
@@ -327,18 +396,18 @@ pub fn walk_check(bytes: &[u8], m: &WdlModel, pre: &str, r: &mut CaseResult) {
                 None => {
                     if off != 0 {
                         r.viol(format!("{pre}: MAOF entry at y*64+x is non-zero for a tile without heights"), format!("tile (x={x},y={y}) offset={off}"));
-                        return;
+                        return Some(mo);
                     }
                 }
                 Some(h) => {
                     let Some(ci) = chunk_starting_at(&chunks, off) else {
                         r.viol(format!("{pre}: MAOF entry at y*64+x does not point at a chunk header"), format!("tile (x={x},y={y}) offset={off}"));
-                        return;
+                        return Some(mo);
                     };
                     let c = &chunks[ci];
                     if c.name != "MARE" || c.size != 1090 {
                         r.viol(format!("{pre}: MAOF entry at y*64+x points at a chunk that is not a 1090-byte MARE"), format!("tile (x={x},y={y}) offset={off} chunk={} size={}", c.name, c.size));
-                        return;
+                        return Some(mo);
                     }
                     for (k, &want) in h.iter().enumerate() {
                         let got = i16le(bytes, c.data_off + 2 * k);
@@ -347,7 +416,7 @@ pub fn walk_check(bytes: &[u8], m: &WdlModel, pre: &str, r: &mut CaseResult) {
                                 format!("{pre}: MARE chunk reached through MAOF[y*64+x] holds other heights than the tile's (tile order / offset / outer-inner layout)"),
                                 format!("tile (x={x},y={y}) value #{k} ({}) written={got} definition={want}", if k < 289 { "outer" } else { "inner" }),
                             );
-                            return;
+                            return Some(mo);
                         }
                     }
                     used += 1;
@@ -358,16 +427,16 @@ pub fn walk_check(bytes: &[u8], m: &WdlModel, pre: &str, r: &mut CaseResult) {
                             let ok = nc.size == 32 && (0..16).all(|k| u16le(bytes, nc.data_off + 2 * k) == hm[k]);
                             if !ok {
                                 r.viol(format!("{pre}: MAHO chunk following the tile's MARE holds other hole masks than the tile's"), format!("tile (x={x},y={y}) size={}", nc.size));
-                                return;
+                                return Some(mo);
                             }
                         }
                         (Some(_), _) => {
                             r.viol(format!("{pre}: no MAHO chunk follows the MARE of a tile that has hole data"), format!("tile (x={x},y={y}) next chunk={:?}", next.map(|c| c.name.clone())));
-                            return;
+                            return Some(mo);
                         }
                         (None, Some(nc)) if nc.name == "MAHO" => {
                             r.viol(format!("{pre}: a MAHO chunk follows the MARE of a tile that has no hole data"), format!("tile (x={x},y={y})"));
-                            return;
+                            return Some(mo);
                         }
                         _ => {}
                     }
@@ -386,7 +455,7 @@ pub fn walk_check(bytes: &[u8], m: &WdlModel, pre: &str, r: &mut CaseResult) {
         let c = find(&chunks, nm);
         if c.len() != usize::from(want_wmo) {
             r.viol(format!("{pre}: {nm} chunk presence in written bytes differs from the definition (names present <=> chunk present)"), format!("found {} names={}", c.len(), m.names.len()));
-            return;
+            return Some(mo);
         }
     }
     if want_wmo {
@@ -399,14 +468,14 @@ pub fn walk_check(bytes: &[u8], m: &WdlModel, pre: &str, r: &mut CaseResult) {
         let c = find(&chunks, "MWID")[0];
         let got: Vec<u32> = (0..c.size / 4).map(|k| u32le(bytes, c.data_off + 4 * k)).collect();
         if c.size % 4 != 0 || got != m.indices {
-            r.viol(format!("{pre}: MWID offsets in written bytes differ from the definition"), format!("written={:?} definition={:?}", got, m.indices));
+            r.viol(format!("{pre}: MWID offsets in written bytes differ from the definition"), format!("written={} definition={}", brief(&got), brief(&m.indices)));
         }
         let c = find(&chunks, "MODF")[0];
         let want: Vec<RawModf> = m.placements.iter().map(|p| RawModf { first: p.wmo_id, second: p.id, f: p.f, h: [p.flags, p.dset, p.nset, p.pad] }).collect();
         match modf_records(&bytes[c.data_off..c.data_off + c.size]) {
             Ok(got) => {
                 if got != want {
-                    r.viol(format!("{pre}: MODF placement records in written bytes differ from the definition"), format!("written={:?} definition={:?}", got, want));
+                    r.viol(format!("{pre}: MODF placement records in written bytes differ from the definition"), format!("written={} definition={}", brief(&got), brief(&want)));
                 }
             }
             Err(e) => r.viol(format!("{pre}: MODF chunk in written bytes is not a whole number of 64-byte records"), e),
@@ -419,7 +488,17 @@ pub fn walk_check(bytes: &[u8], m: &WdlModel, pre: &str, r: &mut CaseResult) {
             r.viol(format!("{pre}: {nm} chunk presence/size in written bytes differs from the definition's record count"), format!("chunks={} bytes={} records={}", c.len(), total, n));
         }
     }
+    // nothing but the documented chunks, and exactly one MAHO per tile with hole data
+    if let Some(c) = chunks.iter().find(|c| !matches!(c.name.as_str(), "MVER" | "MWMO" | "MWID" | "MODF" | "MLDD" | "MLDX" | "MLMD" | "MLMX" | "MAOF" | "MARE" | "MAHO")) {
+        r.viol(format!("{pre}: written bytes contain a chunk that is not part of the WDL format"), format!("chunk {} at {}", c.name, c.hdr_off));
+    }
+    let want_maho = if with_holes { m.holes.keys().filter(|k| m.tiles.contains_key(k)).count() } else { 0 };
+    if find(&chunks, "MAHO").len() != want_maho {
+        r.viol(format!("{pre}: number of MAHO chunks in written bytes differs from the number of tiles with hole data"), format!("MAHO={} tiles with holes={}", find(&chunks, "MAHO").len(), want_maho));
+    }
+    Some(mo)
 }
+
 
 // ------------------------------------------------------------------ oracle 2: field comparison
 
@@ -451,22 +530,22 @@ pub fn compare(exp: &WdlModel, got: &WdlModel, pre: &str, judge_version: bool, r
         r.viol(format!("{pre}: differs in WMO names (MWMO)"), format!("got {} want {}", got.names.len(), exp.names.len()));
     }
     if got.indices != exp.indices {
-        r.viol(format!("{pre}: differs in WMO name offsets (MWID)"), format!("got {:?} want {:?}", got.indices, exp.indices));
+        r.viol(format!("{pre}: differs in WMO name offsets (MWID)"), format!("got {} want {}", brief(&got.indices), brief(&exp.indices)));
     }
     if got.placements != exp.placements {
-        r.viol(format!("{pre}: differs in WMO placements (MODF)"), format!("got {:?} want {:?}", got.placements, exp.placements));
+        r.viol(format!("{pre}: differs in WMO placements (MODF)"), format!("got {} want {}", brief(&got.placements), brief(&exp.placements)));
     }
     if got.m2 != exp.m2 {
-        r.viol(format!("{pre}: differs in M2 placements (MLDD)"), format!("got {:?} want {:?}", got.m2, exp.m2));
+        r.viol(format!("{pre}: differs in M2 placements (MLDD)"), format!("got {} want {}", brief(&got.m2), brief(&exp.m2)));
     }
     if got.m2vis != exp.m2vis {
-        r.viol(format!("{pre}: differs in M2 visibility (MLDX)"), format!("got {:?} want {:?}", got.m2vis, exp.m2vis));
+        r.viol(format!("{pre}: differs in M2 visibility (MLDX)"), format!("got {} want {}", brief(&got.m2vis), brief(&exp.m2vis)));
     }
     if got.wmo2 != exp.wmo2 {
-        r.viol(format!("{pre}: differs in Legion WMO placements (MLMD)"), format!("got {:?} want {:?}", got.wmo2, exp.wmo2));
+        r.viol(format!("{pre}: differs in Legion WMO placements (MLMD)"), format!("got {} want {}", brief(&got.wmo2), brief(&exp.wmo2)));
     }
     if got.wmo2vis != exp.wmo2vis {
-        r.viol(format!("{pre}: differs in Legion WMO visibility (MLMX)"), format!("got {:?} want {:?}", got.wmo2vis, exp.wmo2vis));
+        r.viol(format!("{pre}: differs in Legion WMO visibility (MLMX)"), format!("got {} want {}", brief(&got.wmo2vis), brief(&exp.wmo2vis)));
     }
 }
 
